@@ -821,3 +821,7 @@ B("b61", ["C19", "C14", "C16"], SPACES, "tuple(vector - mins), dimensions, mode=
   "ravel_multi_index called with dims= by keyword and the shift written as jnp.subtract")
 B("b62", ["C09", "C12", "C10"], CKPT, "        self.checkpoint_manager.save(step, args=checkpoint.args.StandardSave(cp_state))",
   "        self.checkpoint_manager.save(int(step), args=checkpoint.args.StandardSave(cp_state))", "the label passed through int()")
+B("b63", ["C13", "C16"], DEMOOR, "jnp.hstack([0, jnp.arange(0.5, self.max_demand + 1.5)])", "jnp.concatenate([jnp.zeros(1), jnp.arange(0.5, self.max_demand + 1.5)])",
+  "cdf grid with the leading zero as a one-element vector")
+B("b64", ["C13", "C16"], DEMOOR, "        demand_probabilities = demand_probabilities.at[-1].add(\n            1 - demand_probabilities.sum()\n        )",
+  "        demand_probabilities = demand_probabilities.at[-1].set(\n            1 - demand_probabilities[:-1].sum()\n        )", "tail folded by setting the last entry to one minus the others")
